@@ -175,6 +175,17 @@ Section Model.
     data_vector (inv_P objs) (inv_operated pi_ G uv preload objs) data noise.
   Definition inv_curvature pi_ G uv preload objs (noise : list cx) (value : T) : list (list T) :=
     curvature_matrix (inv_P objs) (inv_operated pi_ G uv preload objs) noise (inv_noreg objs) value.
+  (* InversionInterferometerMapping.mapped_reconstructed_data_dict: for the i-th linear object,
+     mapped_reconstructed_visibilities_from(operated_mapping_matrix_list[i], reconstruction[param_range_i]);
+     source_quantity_dict_from cuts the reconstruction into consecutive slices of [params] entries *)
+  Fixpoint split_params (ps : list nat) (s : list T) : list (list T) :=
+    match ps with [] => [] | p :: t => firstn p s :: split_params t (skipn p s) end.
+  Definition inv_recon_dict (pi_ : T) (G : geom) uv preload (objs : list (nat * list (list T) * bool)) (s : list T) : list (list cx) :=
+    map (fun os => recon_visibilities (tr_mapping_matrix pi_ G uv preload (fst (fst (fst os))) (snd (fst (fst os)))) (snd os))
+        (combine objs (split_params (map (fun o => fst (fst o)) objs) s)).
+  (* SimulatorInterferometer(noise_sigma=None).via_image_from(image): transformer_class(uv_wavelengths, image.mask) -- the
+     preload argument left at its default (on) -- .visibilities_from(image); no noise is added *)
+  Definition sim_data (pi_ : T) (G : geom) (uv : list (T * T)) (img : list T) : list cx := tr_visibilities pi_ G uv true img.
 
 
   (* ---------------- histories: several TransformerDFT objects alive in one process ---------------- *)
@@ -282,6 +293,10 @@ Section Model.
   (* the operator applied to every column of M, as a K x P matrix *)
   Definition tmm_spec (P : nat) (M : list (list T)) (grid uv : list (T * T)) : list (list cx) :=
     from_columns czero (length uv) (map (fun j => dft_spec (column M j) grid uv) (seq 0 P)).
+  (* per linear object: (the operator applied to the columns of its matrix) times its slice of the reconstruction *)
+  Definition recon_dict_spec (centres uv : list (T * T)) (objs : list (nat * list (list T) * bool)) (s : list T) : list (list cx) :=
+    map (fun os => recon_spec (tmm_spec (fst (fst (fst os))) (snd (fst (fst os))) centres uv) (snd os))
+        (combine objs (split_params (map (fun o => fst (fst o)) objs) s)).
   (* the pure function of the current contents: every step's outcome depends only on the (mask geometry, baselines) the
      addressed object was constructed from and on the argument of THIS call -- not on preload, not on earlier steps *)
   Fixpoint pure_hist (pi_ : T) (ds : list (geom * list (T * T))) (steps : list hstep) : list hout :=
@@ -352,6 +367,9 @@ Inductive case :=
 | KTTmm (pi_ : Q) (G : @geom QOpsT) (uv : list qc) (preload : bool) (P : nat) (M : qm) (out : list (list qc))
 | KInv (pi_ : Q) (G : @geom QOpsT) (uv : list qc) (preload : bool) (objs : list obj) (data noise : list qc) (value : Q)
        (outT : list (list qc)) (outD : qv) (outF : qm)
+(* InversionInterferometerMapping.mapped_reconstructed_data_dict: s is the reconstruction the implementation solved for (an
+   INPUT here: the solver is not part of this property), outs the per-object reconstructed visibilities *)
+| KInvRecon (pi_ : Q) (G : @geom QOpsT) (uv : list qc) (preload : bool) (objs : list obj) (s : qv) (outs : list (list qc))
 (* a history of TransformerDFT objects and method calls in ONE interpreter, with what each step returned *)
 | KHist (pi_ : Q) (steps : list (@hstep QOpsT)) (outs : list (@hout QOpsT)).
 
@@ -378,6 +396,13 @@ Definition inv_F_scales (objs : list obj) (noise : list qc) (value : Q) : list (
                      + (if Nat.eqb (fst ic) (fst jc) then inject_Z (Z.of_nat (count_occ Nat.eq_dec nr (fst ic))) * Qabs value else 0)))
                      (enum cs)) (enum cs).
 Definition qm_close_ss : list (list Q) -> qm -> qm -> bool := list_eqb_s qv_close_ss.
+(* one scale per linear object: sum_j l1(column j of its matrix) * |s_j| bounds every entry of T_i s_i *)
+Definition recon_obj_scales (objs : list obj) (s : qv) : list Q :=
+  map (fun os : obj * qv =>
+         fold_right (fun cs a => Qred (fst cs * Qabs (snd cs) + a)) 0
+                    (combine (col_scales (fst (fst (fst os))) (snd (fst (fst os)))) (snd os)))
+      (combine objs (@split_params QOpsT (map (fun o : obj => fst (fst o)) objs) s)).
+Definition cvs_close_ss : list Q -> list (list qc) -> list (list qc) -> bool := list_eqb_s cv_close_s.
 
 Definition res_close_s (s : Q) (x y : res qv) : bool := res_eqb (qv_close_s s) x y.
 
@@ -421,6 +446,8 @@ Definition agree (k : case) : bool :=
       && qv_close_ss (inv_D_scales objs data noise) (@data_vector QOpsT (@inv_P QOpsT objs) TM data noise) outD
       && qm_close_ss (inv_F_scales objs noise value)
            (@curvature_matrix QOpsT (@inv_P QOpsT objs) TM noise (@inv_noreg QOpsT objs) value) outF
+  | KInvRecon pi_ G uv preload objs s outs =>
+      cvs_close_ss (recon_obj_scales objs s) (@inv_recon_dict QOpsT pi_ G uv preload objs s) outs
   | KHist pi_ steps outs => hist_close steps (@run_hist QOpsT pi_ [] steps) outs
   end.
 
@@ -457,6 +484,8 @@ Definition spec_ok (k : case) : bool :=
       cm_close_cols (inv_col_scales objs) outT TMs
       && qv_close_ss (inv_D_scales objs data noise) outD (@D_spec QOpsT P TMs data noise)
       && qm_close_ss (inv_F_scales objs noise value) outF (@F_spec QOpsT P TMs noise (noreg_spec objs) value)
+  | KInvRecon pi_ G uv preload objs s outs =>
+      cvs_close_ss (recon_obj_scales objs s) outs (@recon_dict_spec QOpsT (@centres_spec QOpsT pi_ G) uv objs s)
   | KHist pi_ steps outs => @hist_geoms_ok QOpsT steps && hist_close steps outs (@pure_hist QOpsT pi_ [] steps)
   end.
 
